@@ -5,7 +5,10 @@
 #   selftest/mutants.sh [name-filter]
 cd "$(dirname "$0")/.."
 if ! git -C /repo diff --quiet; then echo "/repo has uncommitted changes; refusing"; exit 2; fi
-trap 'git -C /repo checkout -- . ; ./check build >/dev/null 2>&1' EXIT
+# evidence and replay files of runs against a patched tree must not replace the
+# committed ones: write them to a scratch directory
+SCRATCH=$(mktemp -d /tmp/rxsim_scratch.XXXXXX); cp known_findings.json "$SCRATCH/"; export VERIF_DIR="$SCRATCH"
+trap 'git -C /repo checkout -- . ; rm -rf "$SCRATCH"; VERIF_DIR= ./check build >/dev/null 2>&1' EXIT
 caught=0; missed=0; total=0
 for d in seeded/*${1:-}*/; do
   name=$(basename "$d")
